@@ -1,0 +1,45 @@
+//go:build verif
+
+package pngmeta
+
+// Contracts for the verification machinery in /verif (vcgo). Comment-only.
+
+//@ func readChunkHeader
+//@   modular
+//@   ensures [C05,C06,C08,C09,C18] ok: old(r.avail) >= 8 ==> result1 == nil && r.pos == old(r.pos) + 8 && result0.Length == be32(r, old(r.pos)) && result0.ChunkType[0] == u8(r, old(r.pos)+4) && result0.ChunkType[1] == u8(r, old(r.pos)+5) && result0.ChunkType[2] == u8(r, old(r.pos)+6) && result0.ChunkType[3] == u8(r, old(r.pos)+7)
+//@   ensures [C05,C06,C08,C09,C18] short: old(r.avail) < 8 ==> result1 != nil && r.pos == r.len
+
+// extractMetadata reads the stream from its first byte. Well-formedness of the input (as far
+// as the parser can see it) is stated with a ghost chunk chain: cs(k) is the offset of the
+// k-th chunk header (length, type), n the index of the first IDAT/IEND chunk.
+//   'IHDR' = 0x49484452  'IDAT' = 0x49444154  'IEND' = 0x49454E44  'iCCP' = 0x69434350
+
+//@ func extractMetadata
+//@   recovers
+//@   alloc_bound r.len
+//@   ghostfun cs int int
+//@   ghost n int
+//@   scenario plain
+//@   requires case=plain sig: r.len >= 8 && be32(r, 0) == 0x89504E47 && be32(r, 4) == 0x0D0A1A0A
+//@   requires case=plain chain-start: cs(0) == 8 && n >= 1 && n <= 0x10000000000
+//@   requires case=plain chain-step: forall k int {cs(k+1)} :: 0 <= k && k < n ==> cs(k+1) == cs(k) + 12 + int(be32(r, cs(k)))
+//@   requires case=plain chain-in-stream: forall k int {cs(k)} :: 0 <= k && k <= n ==> 8 <= cs(k) && cs(k) + 8 <= r.len
+//@   requires case=plain ihdr-first: be32(r, 12) == 0x49484452 && be32(r, 8) == 13
+//@   requires case=plain ancillary: forall k int {cs(k)} :: 1 <= k && k < n ==> be32(r, cs(k)+4) != 0x49484452 && be32(r, cs(k)+4) != 0x49444154 && be32(r, cs(k)+4) != 0x49454E44 && be32(r, cs(k)+4) != 0x69434350
+//@   requires case=plain terminator: be32(r, cs(n)+4) == 0x49444154 || be32(r, cs(n)+4) == 0x49454E44
+//@   loop 1 invariant [C05,C06,C18] case=plain chain: 0 <= iter && iter <= n && r.pos == cs(iter)
+//@   loop 1 invariant [C05,C06,C18] case=plain chain-next: iter < n ==> cs(iter+1) == cs(iter) + 12 + int(be32(r, cs(iter))) && 8 <= cs(iter+1) && cs(iter+1) + 8 <= r.len
+//@   loop 1 invariant [C05] case=plain before-ihdr: iter == 0 ==> !metadataExtracted
+//@   loop 1 invariant [C05] case=plain after-ihdr: iter >= 1 ==> metadataExtracted && md.PixelWidth == be32(r, 16) && md.PixelHeight == be32(r, 20) && md.BitsPerComponent == uint32(u8(r, 24))
+//@   loop 1 invariant [C05,C06] case=plain untouched: md != nil && md.Format == "PNG" && md.iccProfileData == nil && md.iccProfileErr == nil
+//@   loop 1 decreases r.len - r.pos
+//@   loop 2 invariant [C05,C09,C18] skip-ihdr-rest: i <= ch.Length - 9 && r.pos == entry(r.pos) + int(i)
+//@   loop 2 decreases int(ch.Length - 9) - int(i)
+//@   loop 3 invariant [C06,C09] name: 0 <= i && i <= 80 && profileName.len == i && r.pos == entry(r.pos) + i
+//@   loop 3 decreases 80 - i
+//@   loop 4 invariant [C05,C09,C18] skip-chunk: i <= ch.Length && r.pos == entry(r.pos) + int(i)
+//@   loop 4 decreases int(ch.Length) - int(i)
+//@   ensures [C05,C08] case=plain png-dimensions: err == nil && md != nil && md.PixelWidth == be32(r, 16) && md.PixelHeight == be32(r, 20) && md.BitsPerComponent == uint32(u8(r, 24)) && md.Format == "PNG"
+//@   ensures [C06] case=plain no-profile: md != nil && md.iccProfileData == nil && md.iccProfileErr == nil
+//@   ensures [C18] case=plain stops-at-pixel-data: r.pos == cs(n) + 8
+//@   ensures [C07,C09] error-means-no-metadata: err != nil ==> md == nil
